@@ -42,7 +42,17 @@ def _hook(event, args):
             _state["log"].append((event, str(path)))
             raise FenceViolation("lqv fence: write-open outside scratch: %r" % (path,))
     elif event in _MUTATING:
+        dir_fd = None
+        for a in args[1:]:
+            if isinstance(a, int) and not isinstance(a, bool) and a >= 0 and event in ("os.remove", "os.rmdir", "os.mkdir") \
+                    and (event != "os.mkdir" or a is args[-1]):
+                dir_fd = a
         for a in args[:2]:
+            if isinstance(a, (str, bytes, os.PathLike)) and dir_fd is not None and not os.path.isabs(os.fsdecode(a)):
+                try:
+                    a = os.path.join(os.readlink("/proc/self/fd/%d" % dir_fd), os.fsdecode(a))
+                except OSError:
+                    pass
             if isinstance(a, (str, bytes, os.PathLike)) and not _inside(a):
                 _state["log"].append((event, str(a)))
                 raise FenceViolation("lqv fence: %s outside scratch: %r" % (event, a))
